@@ -114,7 +114,7 @@ struct thr {
 	uint64_t calls, returns;
 	int in_section;
 	int registered;
-	uint64_t validations, mp_checks, reg_cycles, offline_cycles;
+	uint64_t validations, mp_checks, reg_cycles, offline_cycles, deep_sections;
 	uint64_t handler_sections;
 	volatile uint64_t x, y;		/* MP litmus, written by updater idx */
 	char pad[64];
@@ -218,6 +218,7 @@ static void reader_unregister(struct thr *t)
  * on a grace period in progress (the updater drops rcu_registry_lock while it waits): if it does, the
  * reader cannot leave its section, the grace period cannot end, nothing moves any more. */
 static int reg_handshake;
+static int deep_nest;
 static int churn_direct_pct;	/* qsbr: percentage of sections that end with a direct unregister / register */
 static uint64_t hs_req, hs_ack, hs_done;
 static int hs_stop;
@@ -260,6 +261,33 @@ static void *reader_main(void *arg)
 	long done = 0;
 
 #if VP_IS_QSBR
+	if (sb_lines) {
+		/* store-buffer stress, qsbr: the offline -> online transition is a plain store of the reader word
+		 * followed by a full fence; queue it behind stores to contended lines and start reading at once */
+		rcu_thread_offline();
+		while (!VP_LOAD(stop_readers)) {
+			vp_spin_cycles(vp_rand_n(&t->rng, (uint32_t) (120 * 2000)));
+			for (int i = 0; i < sb_lines; i++)
+				sb_area[i * 8] = (uint64_t) done;
+			sb_sections++;
+			rcu_thread_online();
+			uint64_t b = ts_after();
+			VP_STORE(t->in_section, 1);
+			struct obj *p = rcu_dereference(slots[vp_rand_n(&t->rng, n_slots)]);
+			validate(p, "qsbr-online-deref");
+			vp_spin_cycles(vp_rand_n(&t->rng, 4) ? 100000 + vp_rand_n(&t->rng, 200000) : vp_rand_n(&t->rng, 4000));
+			validate(p, "qsbr-online-after-delay");
+			t->validations += 2;
+			uint64_t e = ts_before();
+			VP_STORE(t->in_section, 0);
+			rcu_thread_offline();
+			log_sec(t, b, e);
+			done++;
+			__atomic_store_n(&vt->progress, vt->progress + 1, __ATOMIC_RELAXED);
+		}
+		rcu_thread_online();
+		goto qsbr_out;
+	}
 	/* qsbr: a section is the online stretch between two quiescent states */
 	uint64_t b = ts_after();
 	VP_STORE(t->in_section, 1);
@@ -334,9 +362,16 @@ static void *reader_main(void *arg)
 		log_sec(t, b, e);
 		rcu_thread_online();
 	}
+qsbr_out:
 #else
 	while (!VP_LOAD(stop_readers) && (!reader_sections || done < reader_sections)) {
 		int depth = 1 + (max_nest > 1 ? (int) vp_rand_n(&t->rng, max_nest) : 0);
+		if (deep_nest && vp_rand_n(&t->rng, 6000) == 0) {
+			/* any nesting depth: values around the widths a counter field could have */
+			static const int deep[] = { 255, 256, 257, 4095, 4096, 65535, 65536, 65536, 65537, 131072, 196608 };
+			depth = deep[vp_rand_n(&t->rng, sizeof(deep) / sizeof(deep[0]))];
+			t->deep_sections++;
+		}
 		int nobj = 1 + vp_rand_n(&t->rng, 3);
 		struct obj *p[4];
 
@@ -359,6 +394,15 @@ static void *reader_main(void *arg)
 			rcu_read_lock();
 		mp_check(t);
 		reg_handshake_in_section(t);
+		if (depth > 200) {
+			/* hold the deeply nested section across a few grace periods */
+			uint64_t t0 = vp_now_ns();
+			while (vp_now_ns() - t0 < 2000000ULL) {
+				vp_spin_cycles(20000);
+				for (int i = 0; i < nobj; i++)
+					validate(p[i], "inside-deeply-nested-section");
+			}
+		}
 		if (reader_delay_mode)
 			vp_delay_heavy(&t->rng);
 		else if (sb_lines)
@@ -368,7 +412,8 @@ static void *reader_main(void *arg)
 		/* inner unlocks do not end the section */
 		for (int d = 1; d < depth; d++) {
 			rcu_read_unlock();
-			validate(p[d % nobj], "after-inner-unlock");
+			if (d < 8 || !(d & 4095))
+				validate(p[d % nobj], "after-inner-unlock");
 		}
 		if (depth > 1 && reader_delay_mode && vp_rand_n(&t->rng, 4) == 0) {
 			vp_delay_heavy(&t->rng);
@@ -625,6 +670,7 @@ int main(int argc, char **argv)
 	sig_reader = (int) vp_arg_long("sig-reader", 0);
 	tight = (int) vp_arg_long("tight", 0);
 	reg_handshake = (int) vp_arg_long("reg-handshake", 0);
+	deep_nest = (int) vp_arg_long("deep-nest", 0);
 	churn_direct_pct = (int) vp_arg_long("churn-direct-pct", 0);
 	sb_lines = (int) vp_arg_long("sb-lines", 0);
 	n_slots = (uint32_t) vp_arg_long("slots", NSLOTS);
@@ -672,7 +718,7 @@ int main(int argc, char **argv)
 			       sig_reader ? handler_section : NULL);
 	vp_watchdog_start((uint64_t) vp_arg_long("stall-ms", 20000), confirm_stuck);
 
-	uint64_t calls = 0, rets = 0, val = 0, mp = 0, secs = 0, dropped = 0, regc = 0, offc = 0, hs = 0;
+	uint64_t calls = 0, rets = 0, val = 0, mp = 0, secs = 0, dropped = 0, regc = 0, deepc = 0, offc = 0, hs = 0;
 	for (int sc = 0; sc < scenarios; sc++) {
 		if (scenarios > 1) {
 			/* bounded scenario: random shape, every reader terminates */
@@ -735,6 +781,7 @@ int main(int argc, char **argv)
 			secs += thr[i].sec_total;
 			dropped += thr[i].sec_dropped;
 			regc += thr[i].reg_cycles;
+			deepc += thr[i].deep_sections;
 			offc += thr[i].offline_cycles;
 			hs += thr[i].handler_sections;
 		}
@@ -764,6 +811,8 @@ int main(int argc, char **argv)
 	vp_counter_add("reader_validations", val);
 	vp_counter_add("mp_checks", mp);
 	vp_counter_add("register_cycles", regc);
+	if (deep_nest)
+		vp_counter_add("sections_nested_255_to_1M_deep", deepc);
 	vp_counter_add("offline_cycles", offc);
 	vp_counter_add("handler_sections", hs);
 	return vp_finish();
